@@ -270,6 +270,9 @@ PROPS = {
         'families': [
             {'name': 'graph', 'args': {'quick': ['--random', 8000], 'thorough': ['--random', 400000]},
              'shards': {'quick': 16, 'thorough': 16}, 'driver_args': []},
+            # "includes expanded in place": the graph of a program with includes equals the graph of the inlined program
+            {'name': 'inc', 'args': {'quick': ['--random', 1600], 'thorough': ['--random', 60000]},
+             'shards': {'quick': 16, 'thorough': 16}, 'driver_args': []},
         ],
         'exhaustive': {'quick': False, 'thorough': False},
         'rule': 'generated model programs of 2-11 top-level statements nested to depth 0-5: declarations (int/uint/float/bool, const, '
